@@ -225,7 +225,13 @@ def _build_tree(rec, scratch):
         if k == "param":
             t.get_node_matching_name(op[1]).params[op[2]] = op[3]
         elif k == "rooted_at":
-            t = t.rooted_at(op[1])
+            nm = op[1]
+            if nm == "__internal__":
+                cands = [e.name for e in t.get_edge_vector(include_root=False) if e.children]
+                if not cands:
+                    continue
+                nm = cands[0]
+            t = t.rooted_at(nm)
         elif k == "unrooted":
             t = t.unrooted()
         elif k == "sub":
@@ -979,7 +985,7 @@ def gen_featuremap(rng):
                 spans.append(dict(length=rng.randint(1, 3)))
         rec = dict(family="featuremap", spans=spans, parent_length=plen)
     for _ in range(rng.choice([0, 0, 1, 2])):
-        ops.append([rng.choice(["rev", "nucleic_reversed", "covered", "without_gaps", "shadow", "zeroed", "scale"]), 3])
+        ops.append([rng.choice(["nucleic_reversed", "covered", "without_gaps", "shadow", "zeroed", "scale"]), 3])
     rec["ops"] = ops
     rec["hclass"] = hist_class(ops, ["from_locations" if "locations" in rec else "from_spans"])
     return rec
